@@ -3,16 +3,46 @@
 open Model
 open Sx
 open Conv
+(* the writer's own operations, (F) a child is forked and inherits the handle, (C) the oldest child closes its copy *)
+let get_wop = function
+  | L [A "F"] -> Fork
+  | L [A "C"] -> CloseInherited
+  | x -> Own (Cmds_c10.get_op x)
+(* what every close() of the history does to the file: (kind size-before size-after same-bytes), in history order;
+   kind = own (the close of a reopen) | inherited (a forked child closes its copy) | final (end of the history) *)
+let closes isz (ops : wop list) =
+  match start isz with
+  | Err _ -> []
+  | Ok ((f0, h0), _) ->
+      let close_obs kind f ce =
+        match f, apply_effects f ce with
+        | Some b, Ok (Some b2) -> L [A kind; put_int (List.length b); put_int (List.length b2); put_bool (b = b2)]
+        | _ -> L [A kind; A "err"] in
+      let rec go f h inh ops acc =
+        match ops with
+        | [] -> List.rev (close_obs "final" f (close_effects h) :: acc)      (* the writer closes at the end of its history *)
+        | o :: r ->
+            let co = match o, inh with
+              | Own Reopen, _ -> Some ("own", close_effects h)
+              | CloseInherited, hb :: _ -> Some ("inherited", close_effects hb)
+              | _ -> None in
+            let acc = match co with
+              | None -> acc
+              | Some (kind, ce) -> close_obs kind f ce :: acc in
+            (match wstep isz ((f, h), inh) o with
+             | Err _ -> List.rev acc
+             | Ok (((f', h'), inh'), _) -> go f' h' inh' r acc) in
+      go f0 h0 [] ops []
 let register (reg : string -> (Sx.t list -> Sx.t) -> unit) =
-  (* (c11_cuts isz pg ops) -> (trace-length (cut1 cut2 ...)), cut n = file after the first n effects:
+  (* (c11_cuts isz pg wops) -> (trace-length (cut1 cut2 ...) (close1 ...)), cut n = file after the first n effects:
      (file-length reader reader_orig reopen) with reopen = ok (used read_all-of-the-new-handle) *)
   reg "c11_cuts" (fun a -> match a with
     | [isz; pg; ops] ->
         let isz = get_n isz and pg = get_n pg in
-        let ops = get_list Cmds_c10.get_op ops in
-        (match run isz ops with
+        let ops = get_list get_wop ops in
+        (match wrun isz ops with
          | Err e -> L [A "err"; put_exn e]
-         | Ok ((_, _), tr) ->
+         | Ok (((_, _), _), tr) ->
              let put_entries = put_list Cmds_c10.put_entry in
              (* apply the effects one at a time, observing after each *)
              let rec go (f : fstate) es acc =
@@ -37,8 +67,15 @@ let register (reg : string -> (Sx.t list -> Sx.t) -> unit) =
                                  put_res put_entries (read_all_from_file_orig pg b);
                                  reopen; Cmds_c10.put_effect e] in
                         go f' r (o :: acc)) in
-             L [put_int (List.length tr); L (go None tr [])])
+             L [put_int (List.length tr); L (go None tr []); L (closes isz ops)])
     | _ -> bad "c11_cuts");
+  (* (c11_vanish pg typ parts1): the collector's read of a listed file that has vanished -> ok | (err exn) *)
+  reg "c11_vanish" (fun a -> match a with
+    | [pg; typ; p1] ->
+        (match read_listed (get_n pg) (get_str typ) (get_str p1) None with
+         | Ok _ -> L [A "ok"]
+         | Err e -> L [A "err"; put_exn e])
+    | _ -> bad "c11_vanish");
   (* (c11_cont isz pg limit (prefix total-length) ops): a new writer opens the GIVEN file - the bytes of a cut file
      as found on disk, sent as its prefix up to the last non-zero byte plus its length - and continues with ops
      (open_ on the file, then step by step as run_from does); observations as for c10_run *)
